@@ -781,7 +781,7 @@ def _vectorize_func(func):
 
     # What should work once that Jax backend is fully supported
     signature = inspect.signature(func)
-    func_vec = numpy.vectorize(func)
+    func_vec = numpy.vectorize(func, otypes=_otypes_from_return_annotation(func))
 
     @functools.wraps(func)
     def wrapper_vectorize_func(*args, **kwargs):
@@ -790,6 +790,19 @@ def _vectorize_func(func):
     wrapper_vectorize_func.__signature__ = signature
 
     return wrapper_vectorize_func
+
+
+def _otypes_from_return_annotation(func):
+    """Derive the output dtype from the declared return type.
+
+    Without explicit `otypes`, numpy.vectorize infers the dtype from the result for the
+    first row only, so the column's dtype (and, after truncation, the values of all
+    later rows) would depend on the data.
+    """
+    annotation = getattr(func, "__annotations__", {}).get("return")
+    if annotation in (float, "float"):
+        return [float]
+    return None
 
 
 def _fail_if_targets_are_not_among_functions(functions, targets):
